@@ -187,10 +187,15 @@ def builtin(recv, name, args):
     if isinstance(recv, bool) or recv is None:
         if name in ("==", "!=") and len(args) == 1:
             return ops[name](recv, args[0])
+        if isinstance(recv, bool) and name in ("&", "|") and len(args) == 1 and isinstance(args[0], bool):
+            return (recv and args[0]) if name == "&" else (recv or args[0])
         raise Stop("no method %r" % name)
     if isinstance(recv, int):
         if name in ops and len(args) == 1 and isinstance(args[0], int) and not isinstance(args[0], bool):
             return ops[name](recv, args[0])
+        if name in ("/", "%") and len(args) == 1 and isinstance(args[0], int) and not isinstance(args[0], bool) and args[0] != 0:
+            q = abs(recv) // abs(args[0]) * (1 if (recv < 0) == (args[0] < 0) else -1)   # truncating, as Rust's / and %
+            return q if name == "/" else recv - q * args[0]
         if name in ("==", "!=") and len(args) == 1:
             return name == "!="
         raise Stop("no method %r" % name)
